@@ -110,8 +110,10 @@ impl Ttl {
                     Some(TcpMatchQuality::Low.as_score())
                 }
             }
+            // A `ttl+dist` signature stands for the initial TTL `ttl + dist` (p0f database format),
+            // as in the (Value, Distance) arm below.
             (Ttl::Distance(a1, a2), Ttl::Distance(b1, b2)) => {
-                if a1 == b1 && a2 == b2 {
+                if a1.saturating_add(*a2) == b1.saturating_add(*b2) {
                     Some(TcpMatchQuality::High.as_score())
                 } else {
                     Some(TcpMatchQuality::Low.as_score())
@@ -122,6 +124,23 @@ impl Ttl {
                     Some(TcpMatchQuality::High.as_score())
                 } else {
                     Some(TcpMatchQuality::Low.as_score())
+                }
+            }
+            // A `ttl+?` signature names an initial TTL like a plain value does.
+            (Ttl::Distance(a1, a2), Ttl::Guess(b1)) => {
+                if a1.saturating_add(*a2) == *b1 {
+                    Some(TcpMatchQuality::High.as_score())
+                } else {
+                    Some(TcpMatchQuality::Low.as_score())
+                }
+            }
+            // A `ttl-` signature ("bad TTL": tools that pick random TTLs) gives the maximum initial
+            // TTL: p0f accepts any observed TTL that does not exceed it and rejects the rest.
+            (Ttl::Distance(a1, _), Ttl::Bad(b)) | (Ttl::Value(a1), Ttl::Bad(b)) => {
+                if a1 <= b {
+                    Some(TcpMatchQuality::High.as_score())
+                } else {
+                    None
                 }
             }
             (Ttl::Guess(a), Ttl::Guess(b)) => {
